@@ -105,14 +105,21 @@ def ber_variants(rng, tree, n):
     return res
 
 
-def ber_semantic_variants(rng, mod, t, v, enc0, n):
+def ber_semantic_variants(rng, mod, t, v, enc0, n, time_kinds=("GeneralizedTime",)):
     """valid BER encodings of the same value that differ in content choices rather than in TLV form"""
     out = []
     seen = set()
     for i in range(n):
-        e = der.Encoder(mod, emit_defaults=rng.random() < 0.5, shuffle=rng if rng.random() < 0.6 else None,
-                        true_octet=rng.choice([0xff, 0xff, 0x01, 0x80, 0x7f]),
-                        unknown_ext=rng if rng.random() < 0.5 else None)
+        if i == n - 1 or rng.random() < 0.15:
+            # a non-DER notation of the time values only, nothing else changed (so that what it shows is attributable)
+            e = der.Encoder(mod, time_forms=rng)
+            # UTCTime has no canonicalising DER encoder in asn1c (a C06 finding): checks that recognise the value by its
+            # DER re-encoding vary GeneralizedTime only
+            e.time_kinds = time_kinds
+        else:
+            e = der.Encoder(mod, emit_defaults=rng.random() < 0.5, shuffle=rng if rng.random() < 0.6 else None,
+                            true_octet=rng.choice([0xff, 0xff, 0x01, 0x80, 0x7f]),
+                            unknown_ext=rng if rng.random() < 0.5 else None)
         try:
             tree = e.tree(t, v)
         except der.Unsupported:
@@ -121,7 +128,7 @@ def ber_semantic_variants(rng, mod, t, v, enc0, n):
             continue
         fam = "+".join(sorted(e.used))
         # half of them additionally in a non-DER TLV form
-        if rng.random() < 0.5:
+        if rng.random() < 0.5 or e.time_forms is not None:
             b = der.serialize(tree)
         else:
             vs = ber_variants(rng, tree, 1)
